@@ -126,8 +126,8 @@ def admission(ck, P, cfg):
             return any(s.rel == "Eq" and "GZ_WRITE" in s.names for s in _state_field_atoms(fn, fn.edge_atoms(b, lab), "mode"))
         ck.decide(not flow.reaches_avoiding(fn, [0], eff, cut_edges=mode_edge), R, "gzclose_w@%s:mode" % cfg, "effects only in write mode", "gzclose_w acts on a non-write handle", where(fn))
     # gzrewind delegates to gzrewind_help, which tests mode and err
-    rh = P.fn(G + "gzrewind_help")
-    if ck.anchor("fn gz::gzrewind_help", rh):
+    rh = P.fns.get(G + "gzrewind_help") or P.fn(G + "gzrewind")     # the helper may have been folded into gzrewind
+    if ck.anchor("fn gz::gzrewind_help / gzrewind", rh):
         ats = [sig.sig(a, rh) for a, b, tb in atoms.all_atoms(rh)]
         ck.decide(any("mode" in s.names and "GZ_READ" in s.names for s in ats) and any("err" in s.names and -5 in s.consts for s in ats), R, "gzrewind_help@" + cfg,
                   "tests mode == GZ_READ and err in {OK, BUF_ERROR}", "gzrewind_help lost its admission test", where(rh))
@@ -377,10 +377,10 @@ def reposition_reset(ck, P, cfg):
         return
     ck.use_fn(fn)
     seeks = fn.live_calls(r"lseek64$|lseek$")
-    if not ck.anchor("lseek in gzseek64 (%s)" % cfg, len(seeks) == 1, where(fn)):
+    if not ck.anchor("lseek in gzseek64 (%s)" % cfg, len(seeks) >= 1, where(fn)):
         return
-    c = seeks[0]
     rets = [b for b, k in fn.exits() if k == "return"]
+    resets = {c.bb for c in fn.live_calls(r"gz::gz_reset$|gz::gzrewind_help$")}     # gz_reset clears all of them
 
     def failed_edge(b, lab, tb):
         if lab is None or lab[0] == "const":
@@ -391,13 +391,14 @@ def reposition_reset(ck, P, cfg):
                 return True
         return False
 
-    for field in ("have", "eof", "past", "seek"):
-        ws = {bi for bi, fp, root, rv, st in fn.field_writes() if fp[-1] == field and "stream" not in fp and fn.const_of(rv) == 0}
-        leak = not ws or flow.reaches_avoiding(fn, [c.target], rets, cut_blocks=ws, cut_edges=failed_edge)
-        ck.decide(not leak, R, "gzseek64:%s@%s" % (field, cfg), "cleared on every path after the successful lseek",
-                  "after gzseek64 moved the file descriptor it can return without clearing `%s`: stale read-side state survives the "
-                  "reposition (e.g. a latched end-of-file makes every following read return 0 although gztell is mid-file)" % field,
-                  where(fn, c.line))
+    for i, c in enumerate(seeks):
+        for field in ("have", "eof", "past", "seek"):
+            ws = {bi for bi, fp, root, rv, st in fn.field_writes() if fp[-1] == field and "stream" not in fp and fn.const_of(rv) == 0}
+            leak = flow.reaches_avoiding(fn, [c.target], rets, cut_blocks=ws | resets, cut_edges=failed_edge)
+            ck.decide(not leak, R, "gzseek64:%s%s@%s" % (field, "" if i == 0 else "#%d" % i, cfg), "cleared on every path after the successful lseek",
+                      "after gzseek64 moved the file descriptor it can return without clearing `%s`: stale read-side state survives the "
+                      "reposition (e.g. a latched end-of-file makes every following read return 0 although gztell is mid-file)" % field,
+                      where(fn, c.line))
 
 
 def compact_order(ck, P, cfg):
